@@ -6,7 +6,14 @@ EXTENDS Positions, Json, TLCExt
 EmitCase == phase = "end" =>
     LET r == RuleCell
         m == ModelCell
-    IN PrintT(<<"CASE", ToJson([fam |-> fam, ty |-> ty, pos |-> pos, aux |-> aux,
-                                 tags |-> SetToSeq(CellTags), v |-> r.v, codes |-> SetToSortSeq(r.codes, <),
-                                 mok |-> m.ok, mcode |-> m.code])>>)
+        base == [fam |-> fam, ty |-> ty, pos |-> pos, aux |-> aux,
+                 tags |-> SetToSeq(CellTags), v |-> r.v, codes |-> SetToSortSeq(r.codes, <),
+                 mok |-> m.ok, mcode |-> m.code]
+    IN IF fam = "pair"
+       THEN LET pr == PairRule
+                f == FirstCells[aux[1]]
+            IN PrintT(<<"CASE", ToJson(base @@ [first |-> [ty |-> f.ty, pos |-> f.pos],
+                                                 clean1 |-> pr.clean1, clean2 |-> pr.clean2,
+                                                 must1 |-> SetToSortSeq(pr.must1, <), must2 |-> SetToSortSeq(pr.must2, <)])>>)
+       ELSE PrintT(<<"CASE", ToJson(base)>>)
 =============================================================================
